@@ -146,7 +146,7 @@ var parseSpellings = map[string][]string{
 		"character varying(10)", "character varying", "character(5)", "character", "bit varying(5)", "bit varying", "bit(3)", "bit",
 		"double precision", "interval year to month", "interval second(3)", "interval(3)", "interval second(0)", "interval(0)",
 		"interval day to second(6)", "interval hour", "bpchar", "name", "citext", "my_type", "public.my_type", "hstore", "int64",
-		"geometry", "ltree", "varchar", "varchar(0)", "char", "char(0)", "float(0)", "float(1)", "float(24)", "float(25)", "float(53)",
+		"geometry", "ltree", "MyType", "geometry(Point,4326)", "varchar", "varchar(0)", "char", "char(0)", "float(0)", "float(1)", "float(24)", "float(25)", "float(53)",
 		"numeric(0)", "numeric(10,0)", "numeric", "serial", "bigserial", "oid", "regclass", "anyelement", "xid8",
 		// aliases and bare forms
 		"varbit", "varbit(5)", "bit varying(1)", "timestamptz", "timestamptz(3)", "timetz", "timetz(0)", "int2", "int4", "int8", "int",
@@ -157,6 +157,8 @@ var parseSpellings = map[string][]string{
 		"varchar(10)", "varchar(0)", "numeric(10,2)", "numeric(0,0)", "numeric(0)", "decimal(10)", "unsigned big int", "double precision",
 		"varying character(255)", "native character(70)", "datetime", "date", "time", "timestamp", "char(5)", "char", "text", "text(0)",
 		"blob", "blob(0)", "integer", "integer(0)", "real", "real(0,0)", "json", "jsonb", "uuid", "bool", "boolean", "my_type", "point",
+		// user-defined (declared) type names are kept verbatim by ParseType: mixed and upper case, with arguments.
+		"Point", "GEOMETRY", "MyEnum_Status", "Money(10,2)", "LineString",
 		"nvarchar(100)", "clob", "character(20)", "nchar(55)", "int2", "int8", "uint64", "float", "float(0)", "double", "double(0)",
 	},
 }
